@@ -8,7 +8,7 @@ and a reference table -- as normalised expression trees.  See DESIGN.md C04.
 import json
 import os
 
-from . import common, bvals, trees, bval_spec
+from . import common, ccoeval, bvals, trees, bval_spec
 from .common import AnalysisBroken
 from .trees import simp, show, truth, args_in, callees_in, has_opaque, same_shape_diff, INT_WIDTH
 
@@ -173,72 +173,81 @@ def canon(t, row, used):
 # C side
 # --------------------------------------------------------------------------
 
-def genc_fingerprint(facts):
-    """Order-insensitive content of the functions that interpret
-    ccBValInfoTable.special: enumerators, strings, integer constants, callees."""
-    fp = {}
-    for name in GENC_FUNCS:
-        fn = facts.func(name)
-        items = set()
-        for x in common.walk(fn["body"]):
-            if x["k"] == "DeclRefExpr" and x.get("dk") == "enum":
-                items.add("enum:" + x["n"])
-            elif x["k"] == "StringLiteral":
-                v = str(x.get("v"))
-                if "/" in v and v.endswith((".c", ".h")):
-                    continue          # __FILE__ in bug/assert expansions
-                items.add("str:" + v)
-            elif x["k"] == "IntegerLiteral":
-                items.add("int:%s" % x["v"])
-            elif x["k"] == "CallExpr" and x.get("callee"):
-                items.add("call:" + x["callee"])
-            elif x["k"] == "CaseStmt" and x.get("lon"):
-                items.add("case:" + x["lon"])
-        fp[name] = sorted(items)
-    return fp
+FORMS = None     # filled when another rule (C03-T4) asks for the per-route trees
 
 
-def c_expression_tree(row, inf, ops, probe_trees):
-    """Tree of the expression form generated for a table row, following
-    gc0Builtin / gc0FCall / gc0Cop / gc0SIntMod as read (guarded by the
-    fingerprint)."""
-    cf, spec, s = row["cfun"], row["special"], row["str"]
+def generator_terms(f_genc, info, crows, start):
+    """CCode term built by gc0Builtin for every row (rules.ccoeval), in the
+    expression context (gcvisStmtFCall non-zero: the statement-macro route is
+    compared separately as CS)."""
+    ev = ccoeval.Evaluator(f_genc, {r["tagv"]: r for r in crows}, {r["tagv"]: r for r in info}, start)
+    terms = {}
+    for r in crows:
+        try:
+            terms[r["tag"]] = ev.builtin_form(r["tagv"], {"gcvisStmtFCall": 1})
+        except ccoeval.Unknown as e:
+            terms[r["tag"]] = ("opaque", "generator: %s" % e)
+    return terms, ev.followed
+
+
+def canonical_fcall(term, argc):
+    """name(arg0, ..., argN-1): the shape the verif_expr_ probes assume."""
+    if term[0] != "cco" or term[1] != "CCO_FCall" or len(term[2]) != 2:
+        return False
+    f, a = term[2]
+    if f[0] != "rowstr":
+        return False
+    if a[0] != "cco" or a[1] != "CCO_Many":
+        return False
+    return [x[:2] if x is not None else None for x in a[2]] in ([("cast", i) for i in range(argc)], [("arg", i) for i in range(argc)])
+
+
+def c_expression_tree(row, inf, ops, probe_trees, term):
+    """Tree of the expression form generated for a table row: the CCode term
+    computed from gc0Builtin's source, with names and constants resolved by
+    clang through the probe unit."""
+    s = row["str"]
     argc = inf["argCount"]
-    A = [("arg", i) for i in range(argc)]
     short = row["tag"][len("FOAM_BVal_"):]
-    if cf in ("CCO_Id", "CCO_FloatVal", "CCO_IntVal", "CCO_CharVal"):
+    if term[0] == "opaque":
+        return term
+    if term[0] == "rowstr":
         return probe_trees.get("verif_const_" + short, ("opaque", "constant %r not parsed" % (s,)))
-    if cf == "CCO_FCall":
-        if spec == 0:
+    if term[0] == "cco" and term[1] == "CCO_FCall":
+        if canonical_fcall(term, argc):
             return probe_trees.get("verif_expr_" + short, ("opaque", "no probe for %s" % s))
-        if short in ("BIntIsEven", "BIntIsOdd", "BIntPrev", "BIntNext"):
-            return probe_trees.get("verif_spec_" + short, ("opaque", "no probe for special form of %s" % short))
-        return ("opaque", "gc0FCall: no special case for %s (bugBadCase at generation time)" % short)
-    if cf == "CCO_Cast":
-        return probe_trees.get("verif_cast_" + short, ("opaque", "cast not parsed"))
-    op = ops.get(cf)
-    if op is None:
-        return ("opaque", "unknown C operator kind %s" % cf)
-    kind, sym = op
-    if spec == 0:
-        if kind == "CCOK_Infix" and argc == 2:
-            return ("bin", sym, A[0], A[1])
-        if kind == "CCOK_Prefix" and argc == 1:
-            return ("un", sym, A[0])
-        return ("opaque", "operator %s applied to %d operands" % (cf, argc))
-    if spec == 1:
-        c = probe_trees.get("verif_const_" + short, ("opaque", "constant %r not parsed" % (s,)))
-        return ("bin", sym, A[0], c)
-    if spec == 2:
-        if short in ("SIntIsEven", "SIntIsOdd"):
-            return ("bin", sym, ("bin", "%", A[0], ("int", 2)), ("int", 0))
-        if short in ("SIntPlusMod", "SIntMinusMod", "SIntTimesMod"):
-            return ("bin", "%", ("bin", sym, A[0], A[1]), A[2])
-        return ("opaque", "gc0Cop: special 2 not handled for %s (gccUnhandled at generation time)" % short)
-    return ("opaque", "special=%r" % spec)
+        return probe_trees.get("verif_spec_" + short, ("opaque", "no probe for the special form of %s" % short))
+    if term[0] == "cco" and term[1] == "CCO_Cast":
+        ty = term[2][0] if len(term[2]) == 2 else None
+        if ty is not None and ty[0] == "cco" and ty[1] in ("CCO_TypedefId", "CCO_Type") and len(ty[2]) == 1:
+            ty = ty[2][0]        # ccoTypeIdOf(s) == ccoTypedefId(ccoIdOf(s))
+        if ty is not None and ty[0] == "rowstr" and term[2][1] == ("arg", 0):
+            return probe_trees.get("verif_cast_" + short, ("opaque", "cast not parsed"))
+        return ("opaque", "cast form %r" % (term,))
+
+    def conv(t):
+        if t[0] == "rowstr":
+            return probe_trees.get("verif_const_" + short, ("opaque", "constant %r not parsed" % (s,)))
+        if t[0] == "arg":
+            return ("arg", t[1])
+        if t[0] == "int":
+            return ("int", t[1])
+        if t[0] == "cco":
+            op = ops.get(t[1])
+            if op is None:
+                return ("opaque", "unknown C operator kind %s" % t[1])
+            kind, sym = op
+            a = [conv(x) if x is not None else ("opaque", "unfilled operand slot") for x in t[2]]
+            if kind == "CCOK_Infix" and len(a) == 2:
+                return ("bin", sym, a[0], a[1])
+            if kind == "CCOK_Prefix" and len(a) == 1:
+                return ("un", sym, a[0])
+            return ("opaque", "operator %s applied to %d operands" % (t[1], len(a)))
+        return ("opaque", "term %r" % (t,))
+    return conv(term)
 
 
-def write_c_probe(path, info, crows):
+def write_c_probe(path, info, crows, terms):
     """Probe unit: clang parses every constant / cast / function / macro named
     by ccBValInfoTable applied to typed marker operands."""
     plan = bvals.write_probe(path, info, crows, None)
@@ -262,13 +271,17 @@ def write_c_probe(path, info, crows):
                 ty = at if (row["special"] == 1 and at and row["cfun"] not in (
                     "CCO_Id", "CCO_FloatVal", "CCO_IntVal", "CCO_CharVal")) else ct
                 extra.append("%s verif_const_%s(void) { return %s; }" % (ty, short, s))
-        if row["cfun"] == "CCO_FCall" and row["special"] != 0 and s is not None:
-            # gc0FCall's special forms as read (guarded by the fingerprint)
-            if short in ("BIntIsEven", "BIntIsOdd"):
-                extra.append("%s verif_spec_%s(FiBInt a0) { return (%s) %s(fiBIntMod(a0, fiBIntNew(2)), fiBInt0()); }" % (
-                    rett, short, rett, s))
-            elif short in ("BIntPrev", "BIntNext"):
-                extra.append("%s verif_spec_%s(FiBInt a0) { return (%s) %s(a0, fiBInt1()); }" % (rett, short, rett, s))
+        term = terms.get(row["tag"], ("opaque", ""))
+        if term[0] == "cco" and term[1] == "CCO_FCall" and not canonical_fcall(term, inf["argCount"]):
+            # a call form other than name(arg0, ..., argN-1): C text of the term built by the generator
+            argts = [bvals.FI_TYPE.get(t) for t in inf["argTypes"]]
+            if all(argts):
+                try:
+                    text = ccoeval.to_c_text(term, ["a%d" % i for i in range(len(argts))])
+                    extra.append("%s verif_spec_%s(%s) { return (%s) %s; }" % (
+                        rett, short, ", ".join("%s a%d" % (t, i) for i, t in enumerate(argts)) or "void", rett, text))
+                except ccoeval.Unknown:
+                    pass
         if row["cfun"] == "CCO_Cast" and inf["argTypes"]:
             at = bvals.FI_TYPE.get(inf["argTypes"][0])
             ctype = row["str"][1] if isinstance(row["str"], tuple) else row["str"]
@@ -381,14 +394,6 @@ def run(tier, only=None):
                           "no case for %s in fintEvalBCall: the interpreter falls to default: bug() where the C route has "
                           "a mapping" % tag)
 
-    # ---- fingerprint of the functions interpreting the C table ----------
-    fp = genc_fingerprint(f_genc)
-    fp_frozen = load_frozen("c04_genc_fingerprint.json")
-    if fp != fp_frozen:
-        diff = {k: sorted(set(fp[k]) ^ set(fp_frozen.get(k, []))) for k in fp if fp[k] != fp_frozen.get(k)}
-        raise AnalysisBroken("gc0Builtin/gc0FCall/gc0Cop/gc0SIntMod changed content (%s): the reading of "
-                             "ccBValInfoTable.special encoded in c_expression_tree must be re-confirmed" % diff)
-
     # ---- C operator kinds from ccode.c ----------------------------------
     ops = {}
     rec = f_ccode.records.get("cco_info")
@@ -403,7 +408,11 @@ def run(tier, only=None):
 
     # ---- probe unit ------------------------------------------------------
     probe = os.path.join(common.BUILD, "c04_probe.%d.c" % os.getpid())
-    plan = write_c_probe(probe, info, crows)
+    terms, followed = generator_terms(f_genc, info, crows, start)
+    rep.analysed_count("ccBValInfoTable rows whose generated C form was computed from gc0Builtin's source", sum(1 for t in terms.values() if t[0] != "opaque"))
+    if not {"gc0FCall", "gc0Cop", "gc0SIntMod"} <= followed:
+        raise AnalysisBroken("the walk of gc0Builtin no longer reaches gc0FCall/gc0Cop/gc0SIntMod (reached: %s)" % sorted(followed))
+    plan = write_c_probe(probe, info, crows, terms)
     defs = []
     for row in crows:
         if row["cfun"] == "CCO_Cast":
@@ -530,7 +539,7 @@ def run(tier, only=None):
         crow = cby.get(tag)
         if crow is not None:
             where["CE"] = "genc.c:%d (ccBValInfoTable %s)" % (crow["line"], short)
-            ce = c_expression_tree(crow, row, ops, ptrees)
+            ce = c_expression_tree(crow, row, ops, ptrees, terms.get(tag, ("opaque", "no term")))
             raw["CE"] = ce
             # T2-like well-formedness: named runtime entry exists
             if crow["cfun"] == "CCO_FCall" and isinstance(crow["str"], str):
@@ -593,6 +602,8 @@ def run(tier, only=None):
             else:
                 raise AnalysisBroken("%s copy of %s could not be expressed (%s) and is not in frozen/c04_uncompared.json" % (
                     s, short, show(t)))
+        if FORMS is not None:
+            FORMS[short] = {"forms": dict(cmp_forms), "where": dict(where), "incomplete": set(incomplete)}
         pivot = "R" if "R" in cmp_forms else ("I" if "I" in cmp_forms else None)
         if pivot is None or len(cmp_forms) < 2:
             continue
@@ -620,7 +631,8 @@ def run(tier, only=None):
         "FOAM Bool values are 0/1, so & and && (| and ||) coincide on them and any non-zero result denotes true",
         "ISO C isdigit/isalpha/tolower/toupper/atof are one primitive wherever they are called (-D__NO_CTYPE used while parsing)",
         "bigint.c comparison family forms a consistent total order (C11's business)",
-        "the reading of ccBValInfoTable.special is the one encoded in c_expression_tree; guarded by a content fingerprint of "
-        "gc0Builtin/gc0FCall/gc0Cop/gc0SIntMod",
+        "the C form of a builtin is the CCode term gc0Builtin builds for its tag in expression context (branch conditions of "
+        "gc0Builtin/gc0FCall/gc0Cop/gc0SIntMod depend only on the tag and its table rows; computed by rules/ccoeval.py, any "
+        "construct it cannot decide makes the form opaque); gc0TryCast(type, operand) passes the operand's value",
     ]
     return rep
